@@ -146,6 +146,13 @@ def generate(rng, tier):
             expr = {"k": "shared", "n": "E%d" % e, "x": tree} if shared else tree
             for _ in range(rng.choice([1, 1, 2])):
                 wid += 1
+                if rng.random() < 0.2:
+                    # an impatient waiter: abandons the wait after a while (the others must still
+                    # be woken) and waits for the same condition again
+                    ops.append({"op": "scope", "label": "T%d" % wid, "children": [],
+                                "until": {"k": "delay", "d": rng.choice(DELAYS)},
+                                "body": [{"op": "wait", "id": "w%d" % wid, "x": expr}]})
+                    wid += 1
                 ops.append({"op": "wait", "id": "w%d" % wid, "x": expr})
                 ops.append({"op": "now"})
                 if rng.random() < 0.5:
@@ -208,10 +215,15 @@ def _diamond(rng, wid):
 
 def _waits(scenario):
     out = {}
-    for actor in scenario["actors"]:
-        for op in actor["ops"]:
+
+    def scan(name, ops):
+        for op in ops:
             if op["op"] == "wait":
-                out[op["id"]] = (actor["name"], op["x"])
+                out[op["id"]] = (name, op["x"])
+            elif op["op"] == "scope":
+                scan(name, op.get("body", ()))
+    for actor in scenario["actors"]:
+        scan(actor["name"], actor["ops"])
     return out
 
 
@@ -296,7 +308,10 @@ def check(rec):
             if start is not None and start[1] == ev[1]:
                 bad("no-yield", "%s passed %s without suspending" % (ev[3], ev[5]))
         elif ev[4] == "wait!":
-            bad("wait-failed", "%s: await raised %r" % (ev[3], ev[6]))
+            timeout = isinstance(ev[6], tuple) and ev[6][0] == "CancelScope" and \
+                str(ev[6][1]).startswith("scope:T")       # the waiter's own patience ran out
+            if not timeout:
+                bad("wait-failed", "%s: await raised %r" % (ev[3], ev[6]))
     # quiescence: values are final now
     if rec.outcome == ("ok",):
         monitor = rec.notes["monitor"]
